@@ -92,6 +92,9 @@ Judge_generate(c) ==
   LET P == Parse(c.schema) IN
   IF ~P.ok THEN << Cl("H.schema", "fail") >>
   ELSE IF "perr" \in DOMAIN c THEN << Cl("C11.accept", "fail") >>
+  \* an adversarial (scripted) random source that always takes the recursive branch of a union is not a state of the real generator
+  ELSE IF ~c.res.ok /\ "scripted" \in DOMAIN c.res /\ c.res.scripted /\ ~c.through_collection THEN << Cl("C20.generate", "unspec") >>
+  ELSE IF ~c.res.ok /\ c.no_finite_value THEN << Cl("C20.generate", "unspec") >>      \* the type has no finite instance at all
   ELSE IF ~c.res.ok THEN << Cl("C20.generate", "fail") >>
   ELSE
   LET t == P.t
